@@ -555,7 +555,12 @@ pub fn run_terms(ch: &mut Choices, verbose: bool) -> TermsReport {
                     1 => Term::new_variable_independent(format!("v{outer_key:x}n{i}")),
                     _ => Term::new_operator(format!("v{outer_key:x}n{i}")),
                 };
-                scratch.insert(t);
+                if churn > 100_000 {
+                    // the very large churn only hashes the names (bounded memory)
+                    std::hint::black_box(hash3(&t, outer_key));
+                } else {
+                    scratch.insert(t);
+                }
             }
             std::hint::black_box(scratch.len())
         });
